@@ -7,7 +7,7 @@ import z3
 from pyvc import ty as T
 from pyvc import heap as H
 from pyvc.engine import Fact, Step
-from pyvc.registry import ANY, CLASSES, Contract, Loop, declare_ref, lemma, scan, assumption, observation
+from pyvc.registry import ANY, CLASSES, Contract, Loop, declare_ref, lemma, scan, assumption, observation, body_frame
 from contracts import shapes as S_
 from contracts.c_utils import ETy, OptET, us, t_time, t_unit, mk
 from contracts.c_events import EL, q_list, is_heap, mem, ev_time, ev_type, ev_task, et, lst_mod, EVENT, valid_event
@@ -105,10 +105,7 @@ Contract(
     ret=TaskList,
     trusted=True,
     allocates=True,
-    modifies=lambda c: {
-        c.pre.fld_arr(TASK, "_remaining_time")[0]: ANY,
-        c.pre.fld_arr(TASK, "_last_step_time")[0]: ANY,
-    },
+    modifies=body_frame("workers.workers.WorkerPool.step", lambda c: {c.pre.fld_arr(TASK, "_remaining_time")[0]: ANY, c.pre.fld_arr(TASK, "_last_step_time")[0]: ANY}),
     ensures=_pool_step_ens,
     note="WorkerPool.step -> Worker.step -> Task.step for every placed RUNNING task (Task.step itself is proved); profile loading progress is not modelled here",
     props=P_SIM,
